@@ -533,7 +533,32 @@ class Exec:
             return v
         raise EngineError(f'unbound name {name} in {fr.qualname} line {getattr(node, "lineno", "?")}')
 
+    _locals_cache = {}
+
+    def local_names(self, fr):
+        key = (fr.module, fr.qualname)
+        try:
+            fn = front.load(fr.module).func(fr.qualname)
+        except Exception:
+            return frozenset()
+        c = self._locals_cache.get(key)
+        if c is None or c[0] is not fn:
+            names = {a.arg for a in fn.args.args}
+            for n in ast.walk(fn):
+                if isinstance(n, ast.Name) and isinstance(n.ctx, (ast.Store, ast.Del)):
+                    names.add(n.id)
+                elif isinstance(n, ast.ExceptHandler) and n.name:
+                    names.add(n.name)
+            c = (fn, frozenset(names))
+            self._locals_cache[key] = c
+        return c[1]
+
     def ev_Name(self, e, p):
+        fr = p.frames[-1]
+        if e.id not in fr.env and e.id in self.local_names(fr):
+            # a local variable read before any assignment on this path
+            yield p, Raised('UnboundLocalError', node=e)
+            return
         yield p, self.lookup(p, e.id, e)
 
     def ev_Tuple(self, e, p):
@@ -1076,6 +1101,29 @@ class Exec:
             for q2, c in self.branch(q, self.truth(q, t), f'L{s.lineno}'):
                 yield from self.exec_block(s.body if c else s.orelse, q2)
 
+    def st_With(self, s, p):
+        if len(s.items) != 1:
+            raise EngineError('with statement with several items')
+        item = s.items[0]
+        for q, cm in self.ev(item.context_expr, p):
+            if isinstance(cm, Raised):
+                yield q, cm
+                continue
+            if not hasattr(cm, 'cm_enter'):
+                raise EngineError(f'with statement over {cm!r} is not modelled (line {s.lineno})')
+            v = cm.cm_enter(self, q)
+            if item.optional_vars is not None:
+                paths = list(self.assign(q, item.optional_vars, v))
+            else:
+                paths = [(q, NORMAL)]
+            for q1, o in paths:
+                if o is not NORMAL:
+                    yield q1, o
+                    continue
+                for q2, out in self.exec_block(s.body, q1):
+                    cm.cm_exit(self, q2)
+                    yield q2, out
+
     def st_Try(self, s, p):
         def handle(q, out):
             if isinstance(out, Raised):
@@ -1160,9 +1208,14 @@ class Exec:
     def loop_with_invariant(self, s, p, spec, key, bind=None):
         for name, goal in spec.establish(self, p):
             self.oblige(p, 'loop-establish', goal, f'{key[0].split(".")[-1]}.{key[1]}.{name}')
-        h = p
-        spec.head(self, h)
-        h.trail.append(f'loop{key[1]}')
+        heads = spec.head(self, p)
+        if heads is None:
+            heads = [p]
+        for hk, h in enumerate(heads):
+            h.trail.append(f'loop{key[1]}' + (f'.{hk}' if len(heads) > 1 else ''))
+            yield from self._loop_from_head(s, h, spec, key, bind)
+
+    def _loop_from_head(self, s, h, spec, key, bind):
         if bind is not None:
             # for-loop: bind(h) yields (path, has_next: bool)
             tests = bind(h)
